@@ -8,7 +8,7 @@
     only [RunAll]'s scheduler fuel could. [sub c o p]: [p] is reached from [o] through the
     children lists of live owners (the subtree [cleanup o] walks). *)
 From Coq Require Import List ZArith Bool.
-From LV Require Import Reactive.Owner Reactive.OwnerProofs.
+From LV Require Import Reactive.Owner Reactive.OwnerProofs Reactive.OwnerDropProofs.
 Import ListNotations.
 
 (** every cleanup runs at most once over any history *)
@@ -114,3 +114,29 @@ Theorem C08_cascade_fuel_suffices : forall b ops,
   err (dispose k (final_core b ops)) = false.
 Proof. exact r_fuel. Qed.
 Print Assumptions C08_cascade_fuel_suffices.
+
+(** the other exit of a scope — the last strong reference to an owner goes away (a dropped Owner
+    handle, the last ArcMemo handle, an effect task ending: Drop for OwnerInner = [drop_owner]):
+    descendants' cleanups still run before their ancestors' … *)
+Theorem C08_drop_descendants_first : forall b ops,
+  err (final_core b ops) = false ->
+  forall o, alive (final_core b ops) o = true ->
+  forall l, clog (drop_owner o (final_core b ops)) = l ++ clog (final_core b ops) ->
+  forall p a q r ar cid1 cid2,
+    sub (final_core b ops) o p -> nth_error (owners (final_core b ops)) p = Some a ->
+    In cid2 (o_cleanups a) -> In q (o_children a) -> alive (final_core b ops) q = true ->
+    sub (final_core b ops) q r -> nth_error (owners (final_core b ops)) r = Some ar ->
+    In cid1 (o_cleanups ar) ->
+    logged_before cid1 cid2 (cids l).
+Proof. exact r_drop_descendants_first. Qed.
+Print Assumptions C08_drop_descendants_first.
+
+(** … and every owner of the subtree is emptied and every arena key registered there is gone *)
+Theorem C08_drop_handles_disposed : forall b ops,
+  err (final_core b ops) = false ->
+  forall o, alive (final_core b ops) o = true ->
+  forall p ow, sub (final_core b ops) o p -> nth_error (owners (final_core b ops)) p = Some ow ->
+  gone_at (drop_owner o (final_core b ops)) p /\
+  forall k, In k (o_nodes ow) -> get (drop_owner o (final_core b ops)) k = None.
+Proof. exact r_drop_subtree_released. Qed.
+Print Assumptions C08_drop_handles_disposed.
